@@ -339,4 +339,69 @@ theorem switch_EI_removes_own_term (k : ℕ) (hk : k ∉ m.lb) (o : Options) (h 
   have : shiftUp (at' (stage m' y).R_ei) k = 0 := by unfold shiftUp; split_ifs <;> simp [hz]
   rw [hz k, this]; ring
 
+/-! ## the particle balance on the kernel itself -/
+
+/-- a rate `σ · n · j_e · f_ei` (or the zero array of a disabled process) vanishes where the cross
+section used vanishes -/
+theorem rate_zero_of_xs_zero (k : ℕ) (hk : k < m.nq) :
+    (at' (stage m y).xs_ei k = 0 → at' (stage m y).R_ei k = 0) ∧ (at' (stage m y).xs_rr k = 0 → at' (stage m y).R_rr k = 0) ∧
+    (at' (stage m y).xs_dr k = 0 → at' (stage m y).R_dr k = 0) := by
+  refine ⟨fun h => ?_, fun h => ?_, fun h => ?_⟩
+  · cases ho : m.opts.EI with
+    | true => rw [R_ei_formula m y k hk ho, h]; ring
+    | false => exact (disabled_is_zero m y k).1 ho
+  · cases ho : m.opts.RR with
+    | true => rw [R_rr_formula m y k hk ho, h]; ring
+    | false => exact (disabled_is_zero m y k).2.1 ho
+  · cases ho : m.opts.DR with
+    | true => rw [R_dr_formula m y k hk ho, h]; ring
+    | false => exact (disabled_is_zero m y k).2.2.1 ho
+
+/-- **particle balance of one species, stated on the kernel's own output** (`Adv.rhs`, any option set,
+any state): for the block `[L, U)` of a target whose bare nucleus has no ionisation cross section and
+— when another target follows — whose successor's neutral row has no recombination / charge-exchange
+rate, the sum of the ion derivatives is the ionisation of the neutral minus the recombination into
+the neutral minus the two escape rates. The hypotheses are facts about the cross-section *data* the
+kernel uses (`stage.xs_*`: the precomputed vectors or, with `RECOMPUTE_CROSS_SECTIONS`, the vector
+forms of C07–C09), not about the state. -/
+theorem kernel_block_balance (L U : ℕ) (h : L + 2 ≤ U) (hU : U ≤ m.nq)
+    (hint : ∀ k ∈ Finset.Ico (L + 1) U, k ∉ m.lb)
+    (hei : at' (stage m y).xs_ei (U - 1) = 0)
+    (hrr : U < m.nq → at' (stage m y).xs_rr U = 0) (hdr : U < m.nq → at' (stage m y).xs_dr U = 0)
+    (hcx : U < m.nq → at' (stage m y).R_cx U = 0) :
+    ∑ k ∈ Finset.Ico (L + 1) U, (rhs m y).dn k =
+      at' (stage m y).R_ei L - (at' (stage m y).R_rr (L + 1) + at' (stage m y).R_dr (L + 1) + at' (stage m y).R_cx (L + 1))
+        - ∑ k ∈ Finset.Ico (L + 1) U, (at' (stage m y).R_ax k + at' (stage m y).R_ra k) := by
+  have hb := C03.dn_balance m.nq m.lb (stage m y).prates L U h hU hint
+    ((rate_zero_of_xs_zero m y (U - 1) (by omega)).1 hei)
+    (fun hlt => (rate_zero_of_xs_zero m y U hlt).2.1 (hrr hlt))
+    (fun hlt => (rate_zero_of_xs_zero m y U hlt).2.2 (hdr hlt))
+    hcx
+  exact hb
+
+/-- **thermal-energy balance of one species, stated on the kernel's own output**: same data hypotheses
+as `kernel_block_balance`, non-zero raw densities in the block. `T` is the clamped temperature the
+kernel uses, `n_r` the raw density; all terms are entries of the kernel's reported arrays. -/
+theorem kernel_energy_balance (L U : ℕ) (h : L + 2 ≤ U) (hU : U ≤ m.nq)
+    (hint : ∀ k ∈ Finset.Ico (L + 1) U, k ∉ m.lb) (hn : ∀ k ∈ Finset.Ico (L + 1) U, at' (stage m y).n_r k ≠ 0)
+    (hei : at' (stage m y).xs_ei (U - 1) = 0)
+    (hrr : U < m.nq → at' (stage m y).xs_rr U = 0) (hdr : U < m.nq → at' (stage m y).xs_dr U = 0)
+    (hcx : U < m.nq → at' (stage m y).R_cx U = 0) :
+    let S := stage m y
+    let T := S.tin m
+    let P := S.prates
+    ∑ k ∈ Finset.Ico (L + 1) U, (T.kT k * (rhs m y).dn k + T.n_r k * (rhs m y).dkT k) =
+      P.ei L * T.kT L - (P.rr (L + 1) + P.dr (L + 1) + P.cx (L + 1)) * T.kT (L + 1)
+      + ∑ k ∈ Finset.Ico (L + 1) U, T.ih (k - 1) * P.ei (k - 1)
+      - ∑ k ∈ Finset.Ico (L + 1) U, T.ih (k + 1) * (C04.cut m.nq P.rr (k + 1) + C04.cut m.nq P.dr (k + 1) + C04.cut m.nq P.cx (k + 1))
+      + ∑ k ∈ Finset.Ico (L + 1) U, T.n_r k * (T.sh k + T.ct k)
+      - ∑ k ∈ Finset.Ico (L + 1) U, T.kT k * (P.ax k + P.ra k)
+      - ∑ k ∈ Finset.Ico (L + 1) U, T.n_r k * (Adv.axCool T k + Adv.raCool T k) := by
+  intro S T P
+  exact C04.thermal_energy_balance m.nq m.lb T P L U rfl h hU hint hn
+    ((rate_zero_of_xs_zero m y (U - 1) (by omega)).1 hei)
+    (fun hlt => (rate_zero_of_xs_zero m y U hlt).2.1 (hrr hlt))
+    (fun hlt => (rate_zero_of_xs_zero m y U hlt).2.2 (hdr hlt))
+    hcx
+
 end C05
